@@ -62,9 +62,9 @@ pub fn run(seed: u64, runs: usize, pause_us: u64, out: &mut dyn Write) -> Vec<Va
             },
             log_st: false,
             snap: "none".into(),
-            // every other run the tracer fails half way (a fatal receive error): from then on snapshots must show the
+            // two runs in three the tracer fails half way (a fatal receive error): from then on snapshots must show the
             // error together with the rounds, until a clear removes both
-            faults: if r % 2 == 1 {
+            faults: if r % 3 != 0 {
                 vec![crate::scenario::Fault { at_send: -1, from_send: 0, until_send: 0, at_recv: (rounds as i64) * 3, op: "select".into(), kind: "other".into() }]
             } else {
                 Vec::new()
@@ -73,6 +73,8 @@ pub fn run(seed: u64, runs: usize, pause_us: u64, out: &mut dyn Write) -> Vec<Va
         };
         let tracer = build_tracer(&sc).expect("build");
         let stop = Arc::new(AtomicBool::new(false));
+        let writer_done = Arc::new(AtomicBool::new(false));
+        sim::FATAL_FIRED.store(false, Ordering::SeqCst);
         writeln!(out, "{}", json!({"e":"run","sc":sc.id,"rounds":rounds,"dist":dist,"readers":3,"pause_us":pause_us})).unwrap();
         let mut handles = Vec::new();
         // readers
@@ -99,19 +101,64 @@ pub fn run(seed: u64, runs: usize, pause_us: u64, out: &mut dyn Write) -> Vec<Va
         // clearer
         {
             let clear_every_us: u64 = [150u64, 300, 700][r % 3];
+            let aimed = r % 3 != 0;
+            let aim_delay_us: u64 = ((r as u64 * 5 + seed) % 9) * 4;
             let t = tracer.clone();
             let stop = stop.clone();
+            let writer_done = writer_done.clone();
             handles.push(std::thread::spawn(move || {
                 let mut ev: Vec<(u64, Value)> = Vec::new();
                 let mut n = 0;
+                let mut burst = 0;
                 while !stop.load(Ordering::SeqCst) && n < 600 {
-                    std::thread::sleep(std::time::Duration::from_micros(clear_every_us));
+                    // a burst of back-to-back clears from the moment the fatal fault is injected until the tracer thread
+                    // has returned: one of them lands while the tracer publishes its error
+                    let fired = sim::FATAL_FIRED.load(Ordering::SeqCst) && !writer_done.load(Ordering::SeqCst);
+                    if fired && aimed {
+                        // one clear aimed at the moment the tracer publishes its error (the delay sweeps over the runs),
+                        // then no clear until the tracer thread has returned: whatever that clear left behind stays
+                        // on display for the readers
+                        if burst > 0 {
+                            let s0 = stamp();
+                            let st = t.snapshot();
+                            let s1 = stamp();
+                            ev.push((s0, json!({"e":"s0","tid":9})));
+                            ev.push((s1, json!({"e":"s1","tid":9,"d":digest(&st)})));
+                            std::thread::sleep(std::time::Duration::from_micros(50));
+                            continue;
+                        }
+                        let t0 = std::time::Instant::now();
+                        while t0.elapsed() < std::time::Duration::from_micros(aim_delay_us) {
+                            std::hint::spin_loop();
+                        }
+                        burst += 1;
+                    } else if fired && burst < 400 {
+                        burst += 1;
+                    } else {
+                        // wait for the next periodic clear, but wake up at once when the fatal fault is injected
+                        let t0 = std::time::Instant::now();
+                        let armed = !sim::FATAL_FIRED.load(Ordering::SeqCst);
+                        while t0.elapsed() < std::time::Duration::from_micros(clear_every_us) {
+                            if armed && sim::FATAL_FIRED.load(Ordering::SeqCst) {
+                                break;
+                            }
+                            std::hint::spin_loop();
+                        }
+                        n += 1;
+                    }
                     let s0 = stamp();
                     t.clear();
                     let s1 = stamp();
                     ev.push((s0, json!({"e":"c0","tid":9})));
                     ev.push((s1, json!({"e":"c1","tid":9})));
-                    n += 1;
+                    if burst > 0 && !writer_done.load(Ordering::SeqCst) {
+                        // look at once: nothing can have been published since this clear returned
+                        let s0 = stamp();
+                        let st = t.snapshot();
+                        let s1 = stamp();
+                        ev.push((s0, json!({"e":"s0","tid":9})));
+                        ev.push((s1, json!({"e":"s1","tid":9,"d":digest(&st)})));
+                    }
                 }
                 ev
             }));
@@ -145,12 +192,55 @@ pub fn run(seed: u64, runs: usize, pause_us: u64, out: &mut dyn Write) -> Vec<Va
             (ev, res.is_ok())
         });
         let (wev, ok) = writer.join().expect("tracer thread");
+        writer_done.store(true, Ordering::SeqCst);
         if !ok {
             // keep reading and clearing for a while after the failure
             std::thread::sleep(std::time::Duration::from_millis(40));
         }
+        // the quiet tail: the tracer is gone, so after a clear has returned every snapshot is empty - while readers
+        // spin on snapshot() so that one of them is inside it whenever a clear is in progress
+        let tail_stop = Arc::new(AtomicBool::new(false));
+        let mut tail = Vec::new();
+        for tid in 12..14u64 {
+            let t = tracer.clone();
+            let tail_stop = tail_stop.clone();
+            tail.push(std::thread::spawn(move || {
+                let mut ev: Vec<(u64, Value)> = Vec::new();
+                let mut n = 0;
+                while !tail_stop.load(Ordering::SeqCst) && n < 400 {
+                    let s0 = stamp();
+                    let st = t.snapshot();
+                    let s1 = stamp();
+                    ev.push((s0, json!({"e":"s0","tid":tid})));
+                    ev.push((s1, json!({"e":"s1","tid":tid,"d":digest(&st)})));
+                    n += 1;
+                }
+                ev
+            }));
+        }
+        let mut tev: Vec<(u64, Value)> = Vec::new();
+        for _ in 0..60 {
+            let s0 = stamp();
+            tracer.clear();
+            let s1 = stamp();
+            tev.push((s0, json!({"e":"c0","tid":10})));
+            tev.push((s1, json!({"e":"c1","tid":10})));
+            let s0 = stamp();
+            let st = tracer.snapshot();
+            let s1 = stamp();
+            tev.push((s0, json!({"e":"s0","tid":11})));
+            tev.push((s1, json!({"e":"s1","tid":11,"d":digest(&st)})));
+            for _ in 0..20 {
+                std::thread::yield_now();
+            }
+        }
+        tail_stop.store(true, Ordering::SeqCst);
         stop.store(true, Ordering::SeqCst);
         let mut all = wev;
+        all.extend(tev);
+        for h in tail {
+            all.extend(h.join().expect("thread"));
+        }
         for h in handles {
             all.extend(h.join().expect("thread"));
         }
